@@ -133,6 +133,7 @@ PolyLists(k, r) ==
 \* operations
 L == 1..MaxPolys
 SpecialPts == {5, 6, 7}
+UnknownLabel == 9
 QsShape(i) ==
   CASE i = 1 -> {<<l, 1, 1>> : l \in L}                                         \* one group
     [] i = 2 -> {<<l, 1, 1>> : l \in L} \cup {<<1, 2, 2>>}                        \* one polynomial at two points
@@ -142,6 +143,7 @@ QsShape(i) ==
     [] i = 6 -> {<<l, 1, 1>> : l \in L} \cup {<<l, 2, 2>> : l \in L}              \* k = 2 labels, all polynomials
     [] i = 7 -> {<<l, 1, 5>> : l \in L} \cup {<<1, 2, 6>>}                        \* the special points -1 and 0
     [] i = 8 -> {<<l, 1, 7>> : l \in L} \cup {<<l, 2, 5>> : l \in L}              \* the special points 1 and -1
+    [] i = 9 -> {<<l, 1, 1>> : l \in L} \cup {<<UnknownLabel, 1, 1>>}             \* a query for a polynomial that was never committed (C17)
 
 LastL == MaxPolys
 LcShape(i) ==
@@ -227,7 +229,9 @@ LcLookup(lcs) == [e \in {lcs[j].l : j \in DOMAIN lcs} |->
 
 OpenClassOf(o) ==
   LET base == OpenClass(S, keys, polys, rng) IN
-  IF o.kind = "lc" /\ LCImpl(S) # "default"
+  \* every implementation looks the queried labels up first: MissingPolynomial
+  IF o.kind = "batch" /\ \E q \in o.qs : q[1] \notin L THEN "refuse"
+  ELSE IF o.kind = "lc" /\ LCImpl(S) # "default"
   THEN Worst({base} \cup {LcBoundP(o.lcs[j]).cls : j \in DOMAIN o.lcs})
   ELSE base
 
@@ -249,6 +253,7 @@ HonestStmt(o) ==
               THEN LET ks == ProverEvalKeys(LcPolyQs(o.lcs, o.qs)) IN [i \in DOMAIN ks |-> [key |-> ks[i], delta |-> 0]]
               ELSE <<>>,
    vkmut |-> "",         \* C10: which verifier-key element was replaced
+   lookup |-> "",        \* C17: a label / evaluation the verifier will look up in vain
    olcs |-> o.lcs,       \* the combinations the prover opened (never changed by the adversary)
    pre |-> <<>>]         \* events the verifier's sponge absorbed beyond the prover's
 
@@ -409,6 +414,17 @@ PlansC11 ==
                     x[2] > x[1] /\ ops[x[2]].kind = ops[x[1]].kind /\ ops[x[2]].kind # "lc"
                     /\ ops[x[2]] # ops[x[1]] /\ NonConstLabels # {}}}
 
+\* C17: statements whose labels / evaluations cannot be looked up never verify
+PlansC17(st) ==
+  {Plan("honest", "accept", <<>>)}
+  \cup (IF st.kind \in {"batch", "lc"}
+        THEN {Plan("missing_eval", "not_accept", <<[M("missing_eval") EXCEPT !.l = key[1], !.pt = key[2]]>>) : key \in ClaimKeys(st)}
+        ELSE {})
+  \cup (IF st.kind = "batch"
+        THEN {Plan("unknown_query", "not_accept", <<[M("unknown_query") EXCEPT !.l = UnknownLabel, !.pl = 1, !.pt = 1]>>)}
+             \cup {Plan("drop_commitment", "not_accept", <<[M("drop_commitment") EXCEPT !.l = q[1]]>>) : q \in st.qs}
+        ELSE {})
+
 \* round trips: <<artefact, mode>>, mode = 2 * compress + validate
 Artefacts == <<"pp", "ck", "vk", "comm", "state", "proof">>
 SerChoices ==
@@ -427,6 +443,7 @@ AdvPlans ==
     [] Mode = "C11" -> PlansC11
     [] Mode = "C10" -> PlansC10(st)
     [] Mode = "C12" -> {Plan("honest", "accept", <<>>), Plan("value", "not_accept", <<FalseValue(st)>>)}
+    [] Mode = "C17" -> PlansC17(st)
     [] OTHER -> {Plan("honest", "accept", <<>>)}
 
 \* --------------------------------------------------------------------------
@@ -434,7 +451,8 @@ AdvPlans ==
 StaleDelta(l) == IF polys[l].cls \in {"zero", "const"} THEN 0 ELSE 1
 
 ApplyToStmt(st, m) ==
-  CASE m.kind = "value" ->
+  CASE m.kind \in {"missing_eval", "unknown_query", "drop_commitment"} -> [st EXCEPT !.lookup = m.kind]
+    [] m.kind = "value" ->
          [st EXCEPT !.deltas[<<m.l, m.pt>>] = @ + (CASE m.pat = "minus" -> -1 [] m.pat = "plus2" -> 2 [] OTHER -> 1)]
     [] m.kind \in {"value_other", "value_at"} -> [st EXCEPT !.deltas[<<m.l, m.pt>>] = 1]
     [] m.kind = "point" ->
@@ -591,7 +609,8 @@ VkUsed(st) ==
 
 CheckOp(st, ps, sp0) ==
   LET sp == sp0 \o st.pre IN
-  CASE VkUsed(st) -> [res |-> "reject", sp |-> sp, singles |-> "na"]
+  CASE st.lookup # "" -> [res |-> "err", sp |-> sp, singles |-> "na"]     \* MissingPolynomial / MissingEvaluation
+    [] VkUsed(st) -> [res |-> "reject", sp |-> sp, singles |-> "na"]
     [] st.kind = "open" ->
          LET r == GroupCheck(S, keys, ContribMap, VGroup(st, GroupsOfStmt(st)[1], st.comms), ps[1], sp, "check")
          IN [res |-> r.res, sp |-> r.sp, singles |-> "na"]
